@@ -206,6 +206,7 @@ func workloads() []workload {
 		{"obj-builders", "model3d.Build*OBJ and CoordColorFunc.QuantizedTriangleColor worker pools", wOBJ},
 		{"first-use", "concurrent first calls of independent library entry points in a fresh process (package-level lazy state)", wFirstUse},
 		{"first-use-bezier", "model2d.BezierCurve.Eval / CachedEvalX of high-degree curves, first evaluations of each degree made concurrently in a fresh process", wFirstUseBezier},
+		{"wrapped-colliders", "model3d.TransformCollider / ProfileCollider / JoinedCollider of primitives: concurrent ray and ball queries on one object", wWrappedColliders},
 		{"uv-mapfn", "model3d.MeshUVMap.MapFn: one lookup function shared by all goroutines (the texture-fill pattern)", wMapFn},
 		{"joined-shared-child", "model3d.NewJoinedCollider: several goroutines build and query their own join over one shared child collider", wJoinedSharedChild},
 	}
@@ -1001,6 +1002,56 @@ func wMapFn(w *wctx) {
 		}
 		if bad > 0 {
 			w.behav("model3d.MeshUVMap.MapFn/concurrent-equals-sequential", fmt.Sprintf("%d of %d lookups made concurrently differ from the same lookups made sequentially", bad, nq))
+		}
+		w.ops(nq)
+	})
+}
+
+// wWrappedColliders: collider wrappers (which hold no lazy state) answer concurrent queries exactly
+// as they answered the same queries sequentially before.
+func wWrappedColliders(w *wctx) {
+	mesh := model3d.NewMeshIcosphere(model3d.XYZ(0.2, -0.1, 0.3), 1, 2)
+	inner := model3d.MeshToCollider(mesh)
+	tr := model3d.JoinedTransform{&model3d.Scale{Scale: 1.5}, model3d.Rotation(model3d.XYZ(1, 2, 3).Normalize(), 0.7), &model3d.Translate{Offset: model3d.XYZ(0.5, -1, 2)}}
+	outline := model2d.NewMeshPolar(func(t float64) float64 { return 1 + 0.3*math.Sin(3*t) }, 40)
+	colls := []model3d.Collider{
+		model3d.TransformCollider(tr, inner),
+		model3d.TransformCollider(&model3d.Translate{Offset: model3d.XYZ(1, 0, 0)}, model3d.TransformCollider(&model3d.Scale{Scale: 0.5}, inner)),
+		model3d.ProfileCollider(model2d.MeshToCollider(outline), -0.5, 0.7),
+		model3d.NewJoinedCollider([]model3d.Collider{&model3d.Sphere{Radius: 0.7}, &model3d.Cylinder{P1: model3d.XYZ(0, 0, -1), P2: model3d.XYZ(0, 0, 1), Radius: 0.4}, &model3d.Capsule{P1: model3d.XYZ(-1, 0, 0), P2: model3d.XYZ(1, 0, 0), Radius: 0.3}}),
+	}
+	type query struct {
+		ray  *model3d.Ray
+		c    model3d.Coord3D
+		r    float64
+		coll int
+	}
+	nq := 400
+	qs := make([]query, nq)
+	for i := range qs {
+		o := model3d.XYZ(w.rng.NormFloat64(), w.rng.NormFloat64(), w.rng.NormFloat64()).Scale(3)
+		tgt := model3d.XYZ(w.rng.NormFloat64(), w.rng.NormFloat64(), w.rng.NormFloat64()).Scale(0.5)
+		qs[i] = query{&model3d.Ray{Origin: o, Direction: tgt.Sub(o)}, tgt, 0.1 + w.rng.Float64(), i % len(colls)}
+	}
+	answer := func(q query) string {
+		cl := colls[q.coll]
+		var scales []float64
+		n := cl.RayCollisions(q.ray, func(rc model3d.RayCollision) { scales = append(scales, rc.Scale) })
+		sort.Float64s(scales)
+		first, ok := cl.FirstRayCollision(q.ray)
+		return fmt.Sprintf("%d %x %x %v %v", n, scales, first.Scale, ok, cl.SphereCollision(q.c, q.r))
+	}
+	want := make([]string, nq)
+	for i, q := range qs {
+		want[i] = answer(q)
+	}
+	w.parallel(w.gos, func(g int, _ *rand.Rand) {
+		for k := 0; k < nq; k++ {
+			i := (k*13 + g*17) % nq
+			if got := answer(qs[i]); got != want[i] {
+				w.behav(fmt.Sprintf("model3d.Collider[%d]/concurrent-equals-sequential", qs[i].coll), fmt.Sprintf("concurrent answer %q, sequential answer %q", got, want[i]))
+				return
+			}
 		}
 		w.ops(nq)
 	})
